@@ -27,6 +27,7 @@ def jobs(tier):
         for ln in lens:
             js.append(("job_asym_ref", dict(_name="asym ref pw,idA,idB=%s W=%d" % (ln, w), lens=ln, w=w)))
             js.append(("job_sym_ref", dict(_name="sym ref pw,idS=%s W=%d" % (ln[:2], w), lens=ln[:2], w=w, w2=w)))
+    js.append(("job_matrix", dict(_name="many calls in one process with related arguments (ground)")))
     js.append(("job_sym_ref", dict(_name="sym ref unequal widths 3/5", lens=(1, 1), w=3, w2=5)))
     js.append(("job_sym_ref", dict(_name="sym ref unequal widths 5/2", lens=(1, 1), w=5, w2=2)))
     js.append(("job_sym_ref", dict(_name="sym ref empty/2", lens=(1, 1), w=0, w2=2)))
@@ -38,6 +39,13 @@ def jobs(tier):
         js.append(("job_asym_bind", dict(_name="asym binding %s vs %s" % (l1, l2), l1=l1, l2=l2, w=4)))
         js.append(("job_sym_bind", dict(_name="sym binding %s vs %s" % (l1[:2], l2[:2]), l1=l1[:2], l2=l2[:2], w=4)))
     return js
+
+
+def job_matrix(J):
+    from checks import matrix
+    r = matrix.finalize_matrix()
+    J.ground("finalize functions called repeatedly in one process with colliding / re-split / swapped arguments always equal "
+             "the reference", r is None, r, oracle="finalize", args=dict(kind="asym", a=[b"ab", b"c", b"XXXX", b"YYYY", b"KKKK", b"pw"]))
 
 
 def _args(ctx, tag, lens, w, w2=None, wk=None):
@@ -178,6 +186,10 @@ def ref_sym(idS, m1, m2, K, pw):
 
 def oracle_finalize(kind, a, b=None):
     from spake2 import spake2 as S
+    from checks import matrix
+    r = matrix.finalize_matrix()
+    if r:
+        return (True, r)
     if kind == "asym":
         got = S.finalize_SPAKE2(*a)
         return (got != ref_asym(*a), "finalize_SPAKE2%r = %s" % (tuple(a), got.hex()))
